@@ -48,7 +48,7 @@ type Stack struct {
 
 // cutConn passes the first `left` bytes written and pretends to write the rest.
 type cutConn struct {
-	net.Conn
+	mailbox.ProxyConn
 	left int
 }
 
@@ -61,7 +61,7 @@ func (c *cutConn) Write(b []byte) (int, error) {
 		b = b[:c.left]
 	}
 	c.left -= len(b)
-	if _, err := c.Conn.Write(b); err != nil {
+	if _, err := c.ProxyConn.Write(b); err != nil {
 		return 0, err
 	}
 	return n, nil
@@ -204,7 +204,9 @@ func (s *Stack) ConnectRetry(attempts int) (srv, cli SecureConn, tries int) {
 			} else {
 				var hc net.Conn = c
 				if a == 0 && s.CutClientWritesAfter > 0 {
-					hc = &cutConn{Conn: c, left: s.CutClientWritesAfter}
+					if pc, ok := c.(mailbox.ProxyConn); ok {
+						hc = &cutConn{ProxyConn: pc, left: s.CutClientWritesAfter}
+					}
 					s.CutClientWritesAfter = 0
 				}
 				nc, _, err = mailbox.NewNoiseGrpcConn(s.CliData).ClientHandshake(s.Ctx, "", hc)
